@@ -127,6 +127,22 @@ CLAIMED = {
              'shape; Kissel cells are covered by C02).',
         technique='exhaustive table/macro agreement + interval abstract interpretation of accessor paths; thorough: generated-table validation against data files',
     ),
+    'C03': dict(
+        category='other',
+        text='Error-slot typestate (empty / set once / possibly set) on every abstract path of all ~165 functions of libxrl that '
+             'take an error slot (6 000+ path obligations): sentinel returns have exactly one stored error (O1), a stored error '
+             'implies the sentinel (O2), no second store - direct, delegated or propagated (O3), structural rules for the '
+             'three setters/propagate/clear (O3b), untested delegates discharged by coverage sets computed from data/*.dat '
+             '(O4), the error parameter is only forwarded (O5), and log/asin/acos/division arguments are inside their domain '
+             'on every path by interval facts, data facts or a named reasoned exception (O6). The recursive formula scanner, '
+             'whose path space exceeds the budget, is covered by a structural exit-block rule.',
+        design_ref='DESIGN.md section 2, C03',
+        note='Sound-by-construction static analysis, not machine-checked. Assumptions A1-A4 (compound has >= 1 element, '
+             'mass fractions > 0, f\'/f\'\' not exactly 0, untested allocations succeed). Delegated calls are resolved through '
+             'the callee discipline this same check establishes (coinductive). Not decided: overflow/underflow of finite '
+             'arithmetic; meaningfulness of message texts; geometry of caller-supplied unit cells (named, not armed).',
+        technique='typestate + interval abstract interpretation over all paths; who-may-touch rule; data-backed coverage facts',
+    ),
 }
 
 NOT_YET = {}
